@@ -37,7 +37,7 @@ def zygote():
     if "p" not in _Z or _Z["p"].poll() is not None:
         env = dict(os.environ)
         p = subprocess.Popen([sys.executable, "-W", "ignore", "-m", "bbv.zygote"], stdin=subprocess.PIPE, stdout=subprocess.PIPE,
-                             text=True, env=env, bufsize=1)
+                             text=True, env=env, bufsize=1, start_new_session=True)
         line = p.stdout.readline()
         if line.strip() != "READY":
             raise HarnessError("zygote did not start: %r" % line)
@@ -55,6 +55,21 @@ def _stop():
             p.wait(timeout=5)
         except Exception:
             p.kill()
+
+
+def after_timeout():
+    """A history did not finish in time: the zygote and the child still working on it are killed; the next case starts a new one."""
+    import signal
+    p = _Z.pop("p", None)
+    if p is not None:
+        try:
+            os.killpg(p.pid, signal.SIGKILL)
+        except Exception:
+            pass
+        try:
+            p.wait(timeout=5)
+        except Exception:
+            pass
 
 
 def ask(steps):
